@@ -6,7 +6,8 @@
    The model is the code as it stands after the two repairs (fix commits in the repository):
    F10a  nodes without statistics get the multiplier of default statistics (not 1);
    F11a  the mass of nodes without outgoing statements follows the teleport distribution
-         (it is not dropped and re-spread proportionally). *)
+         (it is not dropped and re-spread proportionally);
+   F11b  the convergence exit is taken only after MIN_ITERATIONS (4) rounds. *)
 From SV Require Import Lib.Base Lib.GenericField Gen.TrustConsts.
 From Coq Require Import QArith.
 Local Open Scope N_scope.
@@ -172,14 +173,14 @@ Definition l1diff (v nv : vec) : T :=
 Definition round (v : vec) : vec * T :=
   let nv := normalise (raw_round v) in (nv, l1diff v nv).
 
-(* the loop `for iteration in 0..MAX_ITERATIONS` with its three exits; returns the vector and
-   the number of rounds that ran *)
+(* the loop `for iteration in 0..MAX_ITERATIONS` with its three exits (the convergence exit only once
+   MIN_ITERATIONS rounds have run); returns the vector and the number of rounds that ran *)
 Fixpoint iterate (fuel : nat) (iter : N) (v : vec) : vec * N :=
   match fuel with
   | O => (v, iter)
   | S k =>
       let '(nv, diff) := round v in
-      if ltb diff conv_thr then (nv, iter + 1)
+      if ltb diff conv_thr && (TRUST_MIN_ITERATIONS <=? iter + TRUST_MIN_ITER_OFFSET) then (nv, iter + 1)
       else if (TRUST_CUT1_N <? N.of_nat (length nodes)) && (TRUST_CUT1_ITER <? iter) then (nv, iter + 1)
       else if (TRUST_CUT2_N <? N.of_nat (length nodes)) && (TRUST_CUT2_ITER <? iter) then (nv, iter + 1)
       else iterate k (iter + 1) nv
@@ -345,10 +346,6 @@ Definition prop_case (c : tcase) : bool :=
   let '(tbl, pre, ops, obs) := c in
   obs_cache_ok (map (fun i => (i, @of_Q FloatF TRUST_ANCHOR_INITIAL)) (dedupN pre)) [] ops obs.
 
-(* the input class excluded by C11_sybil_seventh_partial (decided on the model state) *)
-Definition c11_early_exit_class (st : state FloatF) (Sy : list N) : bool :=
-  negb ((4 <=? rounds_run st) || (105 * N.of_nat (length (node_set st)) <=? 100000 * N.of_nat (length Sy))).
-
 (* ---- C11 cases: a graph-building history WITHOUT computes, then one compute; [Sy] is the set of
    identities nobody outside vouches for.  The premises of the C11 theorems are decided here, on
    the model state, so a generator mistake shows up as a failing case rather than a vacuous pass. *)
@@ -381,9 +378,7 @@ Definition prop_c11 (c : c11case) : bool :=
   let total := @fsum FloatF (map snd obs) in
   let mS := @mass FloatF obs Sy in
   dist_ok obs && equal_factors tbl st && negb (a =? 0) && closed_set st Sy &&
-  (* the property as written (C11_sybil_seventh_full): NO side condition here.  The class that the
-     partial theorem excludes (fewer than 4 rounds AND share below 1.05e-3: known finding
-     c11-early-exit) fails this predicate and is tagged by the harness *)
+  (* C11_sybil_seventh: unconditional *)
   fle mS (PrimFloat.div (@of_N FloatF k) (PrimFloat.mul 7 (@of_N FloatF n))) &&
   (* C11_small_net *)
   (negb (n <=? 100) || PrimFloat.ltb mS 0x1.0624dd2f1a9fcp-10%float) &&
